@@ -957,6 +957,33 @@ class Sim:
                 r = a == b
                 return ("value", int(r if c.get("method") == "eq" else not r))
             return ("value", UNK)
+        if has("std::convert::TryFrom::try_from", "std::convert::TryInto::try_into"):
+            a = d[0] if d else UNK
+            if isinstance(a, int) and len(substs) >= 2:
+                to, frm = (substs[0], substs[1]) if has("std::convert::TryFrom::try_from") else (substs[1], substs[0])
+                if to in INT_BITS and frm in INT_BITS:
+                    fits = wrap(a, to) == a
+                    return ("value", Adt("std::result::Result", 0 if fits else 1, [a if fits else UNK]))
+            return ("value", UNK)
+        if p.endswith("::wrapping_neg") or p.endswith("::wrapping_add") or p.endswith("::wrapping_sub") \
+                or p.endswith("::wrapping_mul"):
+            ty = (c.get("inherent_self") or "")
+            if all(isinstance(x, int) for x in d) and ty in INT_BITS:
+                if p.endswith("neg"):
+                    return ("value", wrap(-d[0], ty))
+                if p.endswith("add"):
+                    return ("value", wrap(d[0] + d[1], ty))
+                if p.endswith("sub"):
+                    return ("value", wrap(d[0] - d[1], ty))
+                return ("value", wrap(d[0] * d[1], ty))
+            return ("value", UNK)
+        if p.endswith("::checked_neg") or p.endswith("::checked_add") or p.endswith("::checked_sub") or p.endswith("::checked_mul"):
+            ty = (c.get("inherent_self") or "")
+            if all(isinstance(x, int) for x in d) and ty in INT_BITS:
+                r = -d[0] if p.endswith("neg") else d[0] + d[1] if p.endswith("add") else d[0] - d[1] if p.endswith("sub") else d[0] * d[1]
+                okv = wrap(r, ty) == r
+                return ("value", Adt("std::option::Option", 1 if okv else 0, [r] if okv else []))
+            return ("value", UNK)
         if has("std::convert::From::from", "std::convert::Into::into"):
             a = d[0] if d else UNK
             if isinstance(a, int) and len(substs) >= 2 and substs[0] in INT_BITS and substs[1] in INT_BITS:
